@@ -84,6 +84,35 @@ def run(tier):
         else:
             p, a, script = gen.single_query(logic, rng, options=opts, big=True, after_check=lambda p, r: ["(get-model)"])
         mcases.append({"idx": i, "logic": logic, "options": opts, "script": script})
+    # integer instances that are feasible over the rationals and need many branch / cut rounds in one process:
+    # unbounded variables, equalities with non-unit coefficients (parity-style), several checks per script
+    for i in range(40 if tier == "quick" else 800):
+        rng = random.Random(f"c02-lia-{chk.seed}-{i}")
+        nv = rng.randint(3, 6)
+        xs = [f"x{j}" for j in range(nv)]
+        lines = ["(set-option :print-success true)", "(set-option :produce-models true)", "(set-logic QF_LIA)"]
+        lines += [f"(declare-fun {x} () Int)" for x in xs]
+        N = lambda k: str(k) if k >= 0 else f"(- {-k})"
+        def lin():
+            vs = rng.sample(xs, rng.randint(2, min(4, nv)))
+            return "(+ " + " ".join(f"(* {N(rng.choice([2, 3, 4, 5, 6, -2, -3, -4, 7]))} {v})" for v in vs) + ")"
+        depth = 0
+        for _ in range(rng.randint(14, 28)):
+            c = rng.random()
+            if c < 0.1 and depth < 3:
+                lines.append("(push 1)"); depth += 1
+            elif c < 0.18 and depth:
+                lines.append("(pop 1)"); depth -= 1
+            elif c < 0.45:
+                lines.append(f"(assert (= {lin()} {N(rng.randint(-9, 9))}))")
+            elif c < 0.6:
+                lines.append(f"(assert (<= {lin()} {N(rng.randint(-9, 9))}))")
+            elif c < 0.68:
+                lines.append(f"(assert (or (= {lin()} {N(rng.randint(-5, 5))}) (>= {lin()} {N(rng.randint(-5, 5))})))")
+            else:
+                lines += ["(check-sat)", "(get-model)"]
+        lines += ["(check-sat)", "(get-model)"]
+        mcases.append({"idx": f"lia-{i}", "logic": "QF_LIA", "options": [], "script": "\n".join(lines) + "\n"})
     for f in sorted((common.VERIF / "corpus" / "C02" / "models").glob("*.smt2")):
         mcases.insert(0, {"idx": f.name, "logic": "corpus", "options": [], "script": f.read_text()})
     with mp.Pool(min(common.JOBS, 14)) as pool:
